@@ -14,6 +14,7 @@ import (
 
 	"gitlab.com/aquachain/aquachain/common"
 	"gitlab.com/aquachain/aquachain/core/types"
+	"gitlab.com/aquachain/aquachain/core/vm"
 	vs "gitlab.com/aquachain/aquachain/internal/verifsym"
 )
 
@@ -32,11 +33,11 @@ type c06Snap struct {
 }
 
 type c06DB struct {
-	accts    []*c06Acct
-	refund   uint64
-	snaps    []c06Snap
-	negative bool // some balance went below zero at some point
-	log      []c06Op // balance mutations in call order
+	accts  []*c06Acct
+	refund uint64
+	snaps  []c06Snap
+	sets   []*big.Int // every balance value ever stored (all must be >= 0)
+	log    []c06Op    // balance mutations in call order
 }
 
 // c06Op is one recorded balance mutation: amount added (sub=false) or subtracted.
@@ -61,12 +62,9 @@ func (db *c06DB) getOrNew(a common.Address) *c06Acct {
 		x = &c06Acct{addr: a, bal: new(big.Int)}
 		db.accts = append(db.accts, x)
 	}
-	if !x.exist {
-		x.exist = true
-		x.bal = new(big.Int)
-		x.nonce = 0
-		x.code = nil
-	}
+	// invariant: a non-existent slot has zero balance, zero nonce and no code,
+	// so creating it changes the flag only (no fork on a symbolic flag)
+	x.exist = true
 	return x
 }
 
@@ -84,7 +82,7 @@ func (db *c06DB) CreateAccount(a common.Address) {
 
 func (db *c06DB) setBal(x *c06Acct, v *big.Int) {
 	x.bal = v
-	db.negative = db.negative || v.Sign() < 0
+	db.sets = append(db.sets, v)
 }
 
 func (db *c06DB) SubBalance(a common.Address, amount *big.Int) {
@@ -123,7 +121,8 @@ func (db *c06DB) GetCodeHash(a common.Address) common.Hash {
 		return common.Hash{}
 	}
 	if len(x.code) == 0 {
-		return c06EmptyCodeHash
+		// the hash of the empty code as package vm computes it (natively Keccak256 of nothing)
+		return vm.VerifC06EmptyCodeHash()
 	}
 	return common.Hash{0xc0, 0xde}
 }
@@ -143,7 +142,7 @@ func (db *c06DB) GetCodeSize(a common.Address) int { return len(db.GetCode(a)) }
 func (db *c06DB) AddRefund(g uint64) { db.refund += g }
 func (db *c06DB) GetRefund() uint64  { return db.refund }
 
-func (db *c06DB) GetState(common.Address, common.Hash) common.Hash { return common.Hash{} }
+func (db *c06DB) GetState(common.Address, common.Hash) common.Hash  { return common.Hash{} }
 func (db *c06DB) SetState(common.Address, common.Hash, common.Hash) {}
 
 func (db *c06DB) Suicide(a common.Address) bool {
@@ -198,8 +197,8 @@ func (db *c06DB) RevertToSnapshot(id int) {
 	}
 }
 
-func (db *c06DB) AddLog(*types.Log)                 {}
-func (db *c06DB) AddPreimage(common.Hash, []byte)   {}
+func (db *c06DB) AddLog(*types.Log)                                                  {}
+func (db *c06DB) AddPreimage(common.Hash, []byte)                                    {}
 func (db *c06DB) ForEachStorage(common.Address, func(common.Hash, common.Hash) bool) {}
 
 // sum of all balances
@@ -213,8 +212,6 @@ func (db *c06DB) sum() *big.Int {
 	return s
 }
 
-var c06EmptyCodeHash = common.HexToHash("c5d2460186f7233c927e7db2dcc703c0e500b653ca82273b7bfad8045d85a470")
-
 // fixed slot addresses (none of them a precompile address)
 var c06Addrs = []common.Address{
 	common.HexToAddress("0x00000000000000000000000000000000000a0001"),
@@ -227,13 +224,18 @@ var c06Addrs = []common.Address{
 // balances are non-negative, a non-existent account has zero balance and nonce.
 func c06NewDB(n int) *c06DB {
 	db := &c06DB{}
+	// which slots do not exist: structural choice over the first E patterns
+	pat := c06Missing[vs.Choice("missing", vs.Param("E"))]
 	for i := 0; i < n; i++ {
 		x := &c06Acct{addr: c06Addrs[i]}
-		x.exist = vs.Bool("exist")
-		x.bal = vs.Big("bal")
-		x.nonce = vs.U64("nonce")
-		vs.Assume(x.bal.Sign() >= 0)
-		vs.Assume(x.exist || (x.bal.Sign() == 0 && x.nonce == 0))
+		x.exist = pat&(1<<uint(i)) == 0
+		if x.exist {
+			x.bal = vs.Big("bal")
+			x.nonce = vs.U64("nonce")
+			vs.Assume(x.bal.Sign() >= 0)
+		} else {
+			x.bal = new(big.Int)
+		}
 		db.accts = append(db.accts, x)
 	}
 	db.refund = vs.U64("refund0")
@@ -242,3 +244,16 @@ func c06NewDB(n int) *c06DB {
 
 // roles: the partitions of {sender, recipient, coinbase} over the slots
 var c06Roles = [][3]int{{0, 1, 2}, {0, 0, 2}, {0, 1, 0}, {0, 1, 1}, {0, 0, 0}}
+
+// non-existence patterns (bit i = slot i missing), most interesting first
+var c06Missing = []int{0, 2, 4, 1, 6, 3, 5, 7}
+
+func (db *c06DB) nonNegative() bool {
+	ok := true
+	for _, v := range db.sets {
+		if v.Sign() < 0 {
+			ok = false
+		}
+	}
+	return ok
+}
